@@ -233,6 +233,13 @@ pub fn assemble<S>(
         // (e.g. failed top-level assertions) must still fail the assembly
         report.stop_at_errors()?;
 
+        // Must run before the output is produced, so that
+        // a failed check never leaves an output behind
+        check_unused_defines(
+            report,
+            opts,
+            assembly.decls.as_ref().unwrap())?;
+
         output::check_bank_overlap(
             report,
             assembly.decls.as_ref().unwrap(),
@@ -243,11 +250,6 @@ pub fn assemble<S>(
             assembly.ast.as_ref().unwrap(),
             assembly.decls.as_ref().unwrap(),
             assembly.defs.as_ref().unwrap())?);
-
-        check_unused_defines(
-            report,
-            opts,
-            assembly.decls.as_ref().unwrap())?;
 
         Ok(())
     };
